@@ -49,6 +49,7 @@ CONSTANTS
     S2SDefects,   \* defect flags available to vp_token-bearer requests
     RespDefects,  \* defect flags available to authorization responses
     TokDefects,   \* defect flags available to authorization_code token requests
+    AuthDefects,  \* defect flags available to authorization requests (the scope is fixed there)
     MaxDefects,   \* flags per request (2 = all pairs)
     Defs,         \* definition variants: "plain", or the name of a response member used as constraint-field id
     DPoPKeys,     \* "none" or the name of the key that signed the DPoP proof
@@ -114,6 +115,8 @@ Remembered(n) == burnt[n] # NoTime /\ now < burnt[n] + NonceTTL
 \* VerifyVP's time check of a presentation created at c (valid for VPWindow)
 TimeValid(c, fmt) == IF fmt = "ldp" THEN c <= now + Skew /\ now < c + VPWindow + Skew
                                     ELSE c <= now /\ now < c + VPWindow
+\* requested scope strings no presentation definition is configured for
+ScopeDefects == {"scope", "multiscope"}
 \* defects found by Verifier.VerifyVP
 VerifyDefects == {"vpsig", "vcsig", "revoked", "expired", "stale"}
 \* claim names a definition variant derives from the credentials
@@ -134,7 +137,10 @@ Class(d) ==
     ELSE IF "signer" \in d THEN "signer"
     ELSE IF "aud" \in d THEN "audience"
     ELSE IF "mixed" \in d THEN "signer"                  \* the second presentation of the envelope
-    ELSE IF "scope" \in d THEN "scope"
+    \* "scope": a value no definition is configured for.  "multiscope": a space-delimited LIST of scope values (RFC 6749
+    \* 3.3) - two configured values of which the submission fulfils one, or a configured and an unknown one.  The policy
+    \* backend looks the whole string up: no definition is configured for it.
+    ELSE IF d \cap ScopeDefects # {} THEN "scope"
     ELSE IF d \cap {"foreigndef", "unfulfilled", "forgedmap"} # {} THEN "submission"
     ELSE IF "partial" \in d /\ S2SAllDefs THEN "submission"
     ELSE IF "nononce" \in d THEN "nonce"
@@ -188,11 +194,16 @@ S2SReplay == lastp.cls # None /\ S2SReplayDo(S2SStage(lastp.cls, lastp.n, lastp.
 (***************************************************************************)
 (* authorization_code with OpenID4VP                                       *)
 (***************************************************************************)
-Authorize(client, def) ==
-    /\ "code" \in Flows /\ Len(sess) < MaxSess /\ steps < MaxSteps
-    /\ sess' = Append(sess, [client |-> client, def |-> def, st |-> "open", clean |-> TRUE])
-    /\ Log([a |-> "Authorize", s |-> SessId(Len(sess) + 1), client |-> client, def |-> def])
+\* handleAuthorizeRequestFromHolder: the definitions of the requested scope are looked up first; a scope string nothing is
+\* configured for ends the flow (error redirect).  AuthorizeDo(.., ok): the trace specification also uses it to reconstruct
+\* a session a real node opened for such a scope - nothing issued from it is clean.
+AuthorizeDo(client, def, d, ok) ==
+    /\ "code" \in Flows /\ steps < MaxSteps /\ (ok => Len(sess) < MaxSess)
+    /\ sess' = IF ok THEN Append(sess, [client |-> client, def |-> def, st |-> "open", clean |-> d = {}]) ELSE sess
+    /\ Log([a |-> "Authorize", s |-> IF ok THEN SessId(Len(sess) + 1) ELSE None, client |-> client, def |-> def, d |-> d,
+            res |-> IF ok THEN "ok" ELSE "invalid_scope"])
     /\ UNCHANGED <<now, age, burnt, lastp, npres, tokens, intro>>
+Authorize(client, def, d) == AuthorizeDo(client, def, d, d \cap ScopeDefects = {})
 
 \* order as implemented: state -> tenant -> nonce (burnt) -> signer -> audience -> VerifyVP -> fulfil -> code
 RespStage(d, st) ==
@@ -212,7 +223,7 @@ AuthzDo(i, d, fmt, stage) ==
     /\ "code" \in Flows /\ steps < MaxSteps /\ i \in 1..Len(sess)
     /\ sess' = [sess EXCEPT ![i].st = IF stage = "code" THEN "coded"
                                       ELSE IF RespBurns(stage) /\ @ = "open" THEN "dead" ELSE @,
-                            ![i].clean = IF stage = "code" THEN d = {} /\ RespStage(d, sess[i].st) = "code" ELSE @]
+                            ![i].clean = IF stage = "code" THEN @ /\ d = {} /\ RespStage(d, sess[i].st) = "code" ELSE @]
     /\ Log([a |-> "AuthzResponse", s |-> SessId(i), d |-> d, fmt |-> fmt,
             res |-> IF stage = "code" THEN "code" ELSE "invalid_request", stage |-> stage])
     /\ UNCHANGED <<now, age, burnt, lastp, npres, tokens, intro>>
@@ -287,7 +298,7 @@ Next ==
     \/ \E d \in DefectSets(S2SDefects), n \in Nonces, fmt \in Formats, fut \in Futures, def \in Defs, k \in DPoPKeys, c \in Clients :
           S2SToken(d, n, fmt, fut, def, k, c)
     \/ S2SReplay
-    \/ \E c \in Clients, def \in Defs : Authorize(c, def)
+    \/ \E c \in Clients, def \in Defs, d \in DefectSets(AuthDefects) : Authorize(c, def, d)
     \/ \E i \in 1..Len(sess), d \in DefectSets(RespDefects), fmt \in Formats : AuthzResponse(i, d, fmt)
     \/ \E i \in 1..Len(sess), d \in DefectSets(TokDefects), k \in DPoPKeys : CodeToken(i, d, k)
     \/ \E t \in 0..Len(tokens), ext \in Exts : Introspect(t, ext)
